@@ -123,8 +123,13 @@ def drive(ds, torch, kind, N, freq, start, shapes, presence, plans, seed, counte
     import distributed_shampoo.utils.shampoo_preconditioner_list as pl
 
     name = "matrix_inverse_root" if kind == "shampoo" else "matrix_eigenvectors"
-    if not hasattr(pl, name):
-        raise Inconclusive(f"{name} is not a name in shampoo_preconditioner_list: the fault injector cannot attach")
+    import matrix_functions as mfmod
+
+    # the routine is reached either through the name shampoo_preconditioner_list imported or through the matrix_functions
+    # module attribute (`import matrix_functions as x; x.matrix_inverse_root(...)`): the injector attaches at both
+    sites = [m for m in (pl, mfmod) if hasattr(m, name)]
+    if not sites:
+        raise Inconclusive(f"{name} is neither a name in shampoo_preconditioner_list nor in matrix_functions: the fault injector cannot attach")
     size_to_slot = {}
     for j, s in enumerate(shapes):
         for f, n in enumerate(s):
@@ -134,8 +139,10 @@ def drive(ds, torch, kind, N, freq, start, shapes, presence, plans, seed, counte
     gof = [0 if (group_N is None or j < cut) else 1 for j in range(len(shapes))]
     Nof = [N if group_N is None else group_N[gof[j]] for j in range(len(shapes))]
     t_groups = [0, 0]
-    wrap = FaultWrapper(getattr(pl, name), size_to_slot)
-    setattr(pl, name, wrap)
+    originals = [(m, getattr(m, name)) for m in sites]
+    wrap = FaultWrapper(originals[0][1], size_to_slot)
+    for m, _ in originals:
+        setattr(m, name, wrap)
     try:
         gg = tgen(*seed, "grads")
         shadow = [0] * len(shapes)
@@ -242,7 +249,8 @@ def drive(ds, torch, kind, N, freq, start, shapes, presence, plans, seed, counte
                         counters["stored_checked"] += 1
         return "completed"
     finally:
-        setattr(pl, name, wrap.orig)
+        for m, f in originals:
+            setattr(m, name, f)
         counters["wrapper_evaluations"] += wrap.evaluations
 
 
